@@ -109,17 +109,14 @@ def impl_pub(rt, c):
     from allmydata.mutable.servermap import ServerMap
     from allmydata.mutable.common import UncoordinatedWriteError, NotEnoughServersError
     servers = {i: mc.FakeServer(i) for i in range(8)}
-    p = P.Publish.__new__(P.Publish)
-    p._log_number = None
-    p._status = P.PublishStatus()
-    p._running = True
-    p._first_write_error = None
-    p._last_failure = None
+    # built by the real __init__ and initialised by the real publish() set-up, so that whatever attributes the class
+    # keeps internally (e.g. how it remembers surprises) exist in the shape the class gives them; the harness then
+    # installs the state under test through the attributes the bookkeeping methods read
+    p, _err = mc.real_publish(c["k"], 10, list(servers.values()))
     p._node = FakeNode()
     p.required_shares = c["k"]
     p.total_shares = 10
     p.segment_size = 6
-    p.surprised = False
     p.num_outstanding = 0
     p.writers = DictOfSets()
     ws = {}
@@ -167,7 +164,7 @@ def impl_pub(rt, c):
     else:
         out = repr(res[0])
     left = sorted((w.shnum, w.server.i) for wset in p.writers.values() for w in wset)
-    return "%s;%s;%s;%s;%s" % (out, "T" if p.surprised else "F",
+    return "%s;%s;%s;%s;%s" % (out, "T" if getattr(p, "surprised") else "F",
                                ",".join("%d@%d" % x for x in left) or "-",
                                ",".join("%d.%d" % x for x in sorted((s.i, sh) for (s, sh) in p.placed)) or "-",
                                ",".join(str(i) for i in sorted(s.i for s in p.bad_servers)) or "-")
@@ -236,8 +233,7 @@ def impl_goal(c):
     servers = {i: mc.FakeServer(i) for i in range(10)}
     for (s, b) in c["full"]:
         servers[s].permitted = b
-    p = P.Publish.__new__(P.Publish)
-    p._log_number = None
+    p, _err = mc.real_publish(1, max(1, c["total"]), list(servers.values())[:1])
     p._first_write_error = None
     p._new_seqnum = 2
     p.total_shares = c["total"]
@@ -253,7 +249,7 @@ def impl_goal(c):
 
 # ----------------------------------------------------------------------------- (c) grid scenarios with failing writes
 
-FAULTS = ["ok", "ok", "ok", "before", "after", "down", "hang"]
+FAULTS = ["ok", "ok", "ok", "before", "after", "down", "hang", "tamper", "tamper"]
 
 
 def gen_scenario(rng):
@@ -266,7 +262,7 @@ def gen_scenario(rng):
     for i in range(rng.randrange(2, 5)):
         plan = {}
         for s in range(S):
-            f = rng.choice(FAULTS if heavy else FAULTS[:3] + ["before", "after", "down"]) if rng.random() < (0.6 if heavy else 0.25) else "ok"
+            f = rng.choice(FAULTS if heavy else FAULTS[:3] + ["before", "after", "down", "tamper"]) if rng.random() < (0.6 if heavy else 0.25) else "ok"
             if f == "hang" and rng.random() < 0.7:
                 f = "before"
             if f != "ok":
@@ -384,6 +380,8 @@ def run_scenario(ctx, sc, acc):
             try:
                 c = g.clients[0]
                 node = None
+                snaps = []
+                old_snap = None
 
                 def W(d):
                     # publishes use no timers: pump only what is due now, so that a hung server is seen as
@@ -403,6 +401,17 @@ def run_scenario(ctx, sc, acc):
                         f = plan.get(str(i), "ok")
                         w.broken = (f == "down")
                         w.fault = None
+                        if f == "tamper":
+                            # the server "replays" an older copy of one share between the publisher's survey and its
+                            # write: that write is refused, other shares of the same server are accepted
+                            def fault(methname, args, kwargs, _i=i, _st={"done": False}):
+                                if methname != "slot_testv_and_readv_and_writev" or _st["done"] or not old_snap:
+                                    return None
+                                _st["done"] = True
+                                sh = sorted(args[2])[0]
+                                mc.restore_files(old_snap, [(_i, sh)])
+                                return None
+                            w.fault = fault
                         if f in ("before", "after", "hang"):
                             def fault(methname, args, kwargs, _f=f, _w=w):
                                 if methname != "slot_testv_and_readv_and_writev":
@@ -419,6 +428,9 @@ def run_scenario(ctx, sc, acc):
                 for idx, st in enumerate(sc["steps"]):
                     npubs = len(H.pubs)
                     data = bytes.fromhex(st["data"])
+                    if node is not None:
+                        snaps.append(mc.snapshot_files(g, node.get_storage_index()))
+                    old_snap = snaps[-2] if len(snaps) >= 2 else None
                     set_faults(st["faults"])
                     ctx.count("grid-step:" + st["kind"])
                     stuck = False
@@ -468,7 +480,7 @@ def run_scenario(ctx, sc, acc):
                                      "evs": r["evs"]}
                             left = sorted((w.shnum, H.sidx(w.server)) for ws in p.writers.values() for w in ws)
                             impl = "%s;%s;%s;%s;%s" % (
-                                r["result"], "T" if p.surprised else "F", ",".join("%d@%d" % x for x in left) or "-",
+                                r["result"], "T" if getattr(p, "surprised") else "F", ",".join("%d@%d" % x for x in left) or "-",
                                 ",".join("%d.%d" % x for x in sorted((H.sidx(s), sh) for (s, sh) in p.placed)) or "-",
                                 ",".join(str(i) for i in sorted(H.sidx(s) for s in p.bad_servers)) or "-")
                             acc["lines"].append(pub_line(mcase))
@@ -523,7 +535,14 @@ def run(ctx):
     impl = []
     with grid.Runtime(seed=0, policy="fifo") as rt:
         for c in pubs:
-            out = impl_pub(rt, c)
+            try:
+                out = impl_pub(rt, c)
+            except Exception:
+                import traceback
+                out = "harness-exception"
+                ctx.disagree("the real Publish could not be driven for this case", {"kind": "pub", "c": c},
+                             traceback.format_exc()[-800:], None)
+                ctx.count("pub-harness-exception")
             impl.append(out)
             nontrivial = monitor_pub(ctx, c, out, "function")
             line = pub_line(c)
@@ -536,7 +555,12 @@ def run(ctx):
     if pubs:
         ctx.sample({"pub": lines[-1][:300], "impl": impl[-1]})
     # (b)
-    gimpl = [impl_goal(c) for c in goals]
+    gimpl = []
+    for c in goals:
+        try:
+            gimpl.append(impl_goal(c))
+        except Exception as e:
+            gimpl.append("harness-exception:" + type(e).__name__)
     glines = [goal_line(c) for c in goals]
     for c, o, l in zip(goals, gimpl, glines):
         ctx.case(("goal", l) if (c["bad"] or c["goal"]) else None)
